@@ -877,6 +877,19 @@ std::size_t CppCheck::calculateHash(const Preprocessor& preprocessor, const std:
     toolinfo << mSettings.premiumArgs;
     // the cached findings and summaries contain the path of the file
     toolinfo << filePath;
+    // more options which have an impact on the results
+    toolinfo << ' ' << mSettings.checks.intValue();
+    toolinfo << ' ' << mSettings.certainty.intValue();
+    for (const std::string &undef : mSettings.userUndefs)
+        toolinfo << " U" << undef;
+    for (const std::string &includePath : mSettings.includePaths)
+        toolinfo << " I" << includePath;
+    for (const std::string &userInclude : mSettings.userIncludes)
+        toolinfo << " i" << userInclude;
+    for (const std::string &library : mSettings.libraries)
+        toolinfo << " l" << library;
+    toolinfo << ' ' << mSettings.platform.toString();
+    toolinfo << ' ' << mSettings.standards.getC() << ' ' << mSettings.standards.getCPP();
     // TODO: do we need to add more options?
     mSuppressions.nomsg.dump(toolinfo, filePath);
     return preprocessor.calculateHash(toolinfo.str());
